@@ -57,6 +57,45 @@ def set_id_cases(quick: bool):
                 yield {"algorithm": algo, "policies": kids}, req, {"strict": False}
 
 
+class FlakyLogger:
+    """a log sink that fails on chosen calls and works otherwise (a backend that hiccups and recovers)"""
+
+    def __init__(self, events: list, fail_on: set):
+        self.events, self.fail_on, self.n = events, fail_on, 0
+
+    def log(self, payload):
+        self.n += 1
+        self.events.append(real._audit_event(payload))
+        if self.n in self.fail_on:
+            raise RuntimeError("log backend hiccup")
+
+
+def flaky_sink_sequence(run: lib.Run, pol, req, cfg, rr) -> None:
+    """one Guard, several DIFFERENT requests in a row, the log sink failing on some calls: every evaluation emits exactly one audit
+    record, and it is the record of THAT evaluation's decision (a failure of the sink is not made up for later)"""
+    import gen
+    reqs = [req] + [gen.gen_request(rr, pol) for _ in range(3)]
+    evs: list = []
+    try:
+        g = real.make_guard(pol, {k: v for k, v in cfg.items() if k not in ("logger", "metrics", "sink_mode")}, evs)
+    except Exception:  # noqa: BLE001
+        return
+    g.logger_sink = FlakyLogger(evs, {1, 3} if rr.random() < 0.5 else {2})
+    run.count("flaky-sink-sequence")
+    for k, q in enumerate(reqs):
+        del evs[:]
+        try:
+            d = real.call_guard(g, q, "async" if k % 2 else "sync")
+        except Exception:  # noqa: BLE001
+            return
+        out = real.render_decision(d, list(evs))
+        why = audit_ok(out, {"logger": True})
+        if why:
+            run.spec_failures.append({"policy": pol, "request": q, "cfg": cfg, "impl": out, "model": None, "sequence_index": k,
+                                      "requests": reqs, "spec": "log sink failing on some calls: " + why})
+            return
+
+
 def run_cases(run: lib.Run, audit: dict, scale: int = 1):
     quick = run.tier == "quick"
     consts = audit["facts"]["consts"]
@@ -92,6 +131,8 @@ def run_cases(run: lib.Run, audit: dict, scale: int = 1):
             why = audit_ok(out["ok"], cfg)
             if why:
                 run.spec_failures.append({**case, "spec": why})
+        if "ok" in out and i % 6 == 1:
+            flaky_sink_sequence(run, pol, req, cfg, r)
         # repeated evaluation with a cache (hit, and hit after an obligation flip) + raising sinks
         if "ok" in out and i % 4 == 0:
             evs: list = []
@@ -120,7 +161,7 @@ def check(run: lib.Run, audit: dict) -> int:
     run.rule = ("sets of 2–3 children × every child-id pattern (absent/empty/named) × permit/deny/non-matching × 3 algorithms with document-unique "
                 "rule ids; as C01 (template-pool exhaustive + random grammar incl. nested sets with ids, rel, hostile), every case with recording metric+log "
                 "sinks (sync/async), every fourth case evaluated three times on a cached engine (cold, hit, hit after flip) with sinks that "
-                "raise on half of them. non-trivial = a rule id is reported")
+                "raise on half of them; every sixth case as a sequence of four different requests on one Guard whose log sink fails on some calls. non-trivial = a rule id is reported")
     run.exhaustive = True
     run.assumptions = ["as C01"]
     if not audit["ok"]:
